@@ -288,7 +288,7 @@ private def tsc (n : String) (rank : Int) (orig : String) (L : Int) (g : Int := 
       (if g = 0 then [] else [Row.gap { length := g, gapType := "scaffold".toList },
                               Row.frag { name := ['e'], start := 1, stop := 5, strand := 1 }]) }
 
-/- /tmp/w5cli/ex1_keep.py (the real `setup_logging`, `parse_output_file`, `write_info_yaml`, `name_assemblies`,
+/- /verif/lean/tasks/w5cli/ex1_keep.py (the real `setup_logging`, `parse_output_file`, `write_info_yaml`, `name_assemblies`,
    `write_assemblies`, `write_chr_csv_files`, `write_chr_report_csv` with `get_output_filehandle` recording the names), first call:
    output `d/x.2.fa`, `{None: curated [SUPER_1 (rank 1, Sc1, 30+gap 10+5), SUPER_1_unloc_1 (rank 1, Sc1, 8), scaffold_7 (rank 3, Sc9, 4)],
    "Haplotig": [H_1, H_2]}`  →
@@ -335,6 +335,26 @@ example : (nameAssemblies tOuts2 ['y'] ['1']).map (fun l => chromosomesReport "S
            pretextScaffold := some [], length := 20, lengthMinusGaps := 20 },
          { assembly := "Hap2".toList, seqName := "SUPER_2".toList, chromosome := ['2'], localised := true,
            pretextScaffold := some [], length := 10, lengthMinusGaps := 10 }] := by decide
+
+/- /verif/lean/tasks/w5cli/cex.py: `name_assemblies({None: P, "additional_haplotigs": A (curated), "Haplotig": H}, "x", "1")` returns a dict
+   with keys `[None, 'additional_haplotigs']` and names `['x.1.primary', 'x.1.additional_haplotigs']` (A is gone);
+   the real CLI run /verif/lean/tasks/w5cli/e2e (`-p ptx2.agp -o out.agp`) creates out.info.yaml, out.1.primary.curated.agp,
+   out.1.additional_haplotigs.curated.agp (holding only the Haplotig scaffold), the chromosome list, the report, the log -/
+private def tOuts3 : List OutAsm :=
+  [{ key := none, curated := true, scaffolds := [tsc "SUPER_1" 1 "Scaffold_1" 10] },
+   { key := some "additional_haplotigs".toList, curated := true, scaffolds := [tsc "A" 3 "Scaffold_2" 8] },
+   { key := some sHaplotig, curated := false, scaffolds := [tsc "H_1" 3 "Scaffold_3" 6] }]
+example : (nameAssemblies tOuts3 ['x'] ['1']).map (fun l => (namedDict l).map (fun n => (n.key, n.name, n.scaffolds.map (·.name)))) =
+    .ok [(none, "x.1.primary".toList, ["SUPER_1".toList]),
+         (some "additional_haplotigs".toList, "x.1.additional_haplotigs".toList, ["H_1".toList])] := by decide
+example : cliOutputPlan "out.agp".toList true tOuts3 "SUPER_".toList =
+    .ok ["out.log".toList, "out.info.yaml".toList, "out.1.primary.curated.agp".toList,
+         "out.1.additional_haplotigs.curated.agp".toList, "out.1.primary.chromosome.list.csv".toList,
+         "out.chr_report.csv".toList] := by decide
+
+-- re.search(r"\.(\d+)$", s): "x.12" → '12', "x.3\n" → '3', "x.3\n\n" → None, "x.1a" → None, "12" → None, ".7" → '7'
+example : ["x.12", "x.3\n", "x.3\n\n", "x.1a", "12", ".7"].map (fun s => versionSuffix s.toList) =
+    [some "12".toList, some ['3'], none, none, none, some ['7']] := by decide
 
 end Tests
 
